@@ -25,13 +25,14 @@ const (
 	kConstructor = "Constructor" // AssertConstructor(global Name)(nil, Arg)
 	kExportTo    = "ExportTo"    // ExportTo(global Name, *func(int) (Value, error)) ; fn(Arg)
 	kExportToNE  = "ExportToNoErr"
-	kForOf       = "ForOf"    // Try(func(){ ForOf(global Name, step) }), step stops after Arg values
-	kTry         = "Try"      // Try(func(){ global Name .ToInteger() })  (valueOf in script)
-	kObjGet      = "ObjGet"   // Try(func(){ global Name .Get(Prop) })
-	kObjSet      = "ObjSet"   // global Name .Set(Prop, Arg)
-	kRtGet       = "RtGet"    // Try(func(){ Runtime.Get(Name) })   (global accessor)
-	kRtSet       = "RtSet"    // Runtime.Set(Name, Arg)
-	kGenDrive    = "GenDrive" // Callable(global Name)() -> generator object; Arg x Callable(next); then Callable(return)
+	kForOf       = "ForOf"     // Try(func(){ ForOf(global Name, step) }), step stops after Arg values
+	kTry         = "Try"       // Try(func(){ global Name .ToInteger() })  (valueOf in script)
+	kTryString   = "TryString" // Try(func(){ global Name .String() })  (Array.prototype.toString -> join -> element toString in script)
+	kObjGet      = "ObjGet"    // Try(func(){ global Name .Get(Prop) })
+	kObjSet      = "ObjSet"    // global Name .Set(Prop, Arg)
+	kRtGet       = "RtGet"     // Try(func(){ Runtime.Get(Name) })   (global accessor)
+	kRtSet       = "RtSet"     // Runtime.Set(Name, Arg)
+	kGenDrive    = "GenDrive"  // Callable(global Name)() -> generator object; Arg x Callable(next); then Callable(return)
 )
 
 type callSpec struct {
@@ -300,7 +301,7 @@ func newEnv(h *history, f faultSpec, obs *runObs) (*env, error) {
 	ho := v.(*goja.Object)
 	e.helpers = map[string]goja.Callable{}
 	e.helperObj = ho
-	for _, n := range []string{"dump", "rebuild", "stk", "stk2", "thr", "rec", "depth"} {
+	for _, n := range []string{"dump", "rebuild", "stk", "stk2", "thr", "rec", "depth", "reuse"} {
 		f, ok := goja.AssertFunction(ho.Get(n))
 		if !ok {
 			return nil, fmt.Errorf("prelude helper %s missing", n)
@@ -474,6 +475,8 @@ func (e *env) doCall(c *callSpec) (o gj.Outcome, skipped string, draining bool, 
 				})
 			case kTry:
 				ex = r.Try(func() { res = r.ToValue(obj.ToInteger()) })
+			case kTryString:
+				ex = r.Try(func() { res = r.ToValue(obj.String()) })
 			case kObjGet:
 				ex = r.Try(func() { res = obj.Get(c.Prop) })
 			case kObjSet:
